@@ -19,6 +19,7 @@ use arrayvec::ArrayVec;
 use crossbeam_channel::Sender;
 use hashbrown::HashMap;
 use hdrhistogram::Histogram;
+#[cfg(not(aquatic_verif))]
 use parking_lot::RwLockUpgradableReadGuard;
 use rand::prelude::SmallRng;
 use rand::{Rng, RngExt};
@@ -29,7 +30,11 @@ use crate::config::Config;
 const SMALL_PEER_MAP_CAPACITY: usize = 2;
 
 use aquatic_udp_protocol::InfoHash;
+#[cfg(not(aquatic_verif))]
 use parking_lot::RwLock;
+
+#[cfg(aquatic_verif)]
+use crate::verif_locks::{RwLock, RwLockUpgradableReadGuard};
 
 #[derive(Clone)]
 pub struct TorrentMaps {
